@@ -565,6 +565,9 @@ class ZoneFn:
 
     def single_def(self, l):
         ds = self.fd.defs.get(l, [])
+        if len(ds) > 1:
+            # a write *through* a reference held in l is not a definition of l
+            ds = [d for d in ds if not any(q['k'] == 'deref' for q in (d[2].get('dst', {}).get('p') or []))]
         if len(ds) == 1 and not self.fd.is_param(l):
             return ds[0]
         return None
